@@ -503,6 +503,12 @@ class Body:
             v = c.get('str', c.get('val'))
             if 'fn' in c:
                 return ('fnitem', c['fn']['path'], c['fn'])
+            if v is None and (c.get('text') or '').startswith('const ') and depth < 300:
+                kb = self.facts.bodies.get(c['text'][6:])
+                if kb is not None and kb.kind == 'const' and kb is not self and not kb.loops() and len(kb.blocks) <= 12 and not self.facts.__dict__.get('_no_const_inline'):
+                    r = kb.ret_expr()
+                    if r[0] != 'top' and all(x[0] in ('const', 'ref', 'deref', 'aggr', 'cast') for x in walk(r)) and len(list(walk(r))) <= 200 and r[0] == 'aggr' and r[1] != 'array':
+                        return r
             m = re.fullmatch(r'const (.*)::promoted\[(\d+)\]', c.get('text') or '')
             if m and v is None and depth < 300:
                 # a promoted constant (`&"MONEY"`, `&['-', '+']`): its value is what the promoted body returns
@@ -778,6 +784,12 @@ def simplify(e):
         return e[1][1]
     if e[0] == 'ref' and e[1][0] == 'deref':
         return e[1][1]
+    if e[0] == 'index' and e[2][0] == 'const' and isinstance(e[2][2], int):
+        base = e[1]
+        while base[0] in ('ref', 'deref'):
+            base = base[1]
+        if base[0] == 'aggr' and base[1] == 'array' and 0 <= e[2][2] < len(base[2]):
+            return base[2][e[2][2]]              # TABLE[k] of a literal table
     if e[0] == 'field' and e[2].startswith('#'):
         base = e[1]
         while base[0] in ('ref', 'deref'):
@@ -1045,6 +1057,73 @@ def alternatives(body, e, limit=64, _conds=()):
     if k == 'call' and is_transparent(e[1]) and e[2]:
         return [(('call', e[1], [x] + list(e[2][1:]), e[3]), c) for x, c in alternatives(body, e[2][0], limit, _conds)]
     return [(e, tuple(_conds))]
+
+
+def _spine_phi(e, depth=0):
+    """the phi reachable from the top of e through projections, references, casts and identity-like calls (else None)"""
+    while depth < 40:
+        depth += 1
+        k = e[0]
+        if k == 'phi':
+            return e
+        if k in ('ref', 'deref', 'field', 'downcast', 'discr'):
+            e = e[1]
+        elif k == 'cast':
+            e = e[3]
+        elif k == 'call' and is_transparent(e[1]) and e[2]:
+            e = e[2][0]
+        else:
+            return None
+    return None
+
+
+def _phi_key(p):
+    return (p[1], repr(p[4]))
+
+
+def _replace_spine(e, key, k):
+    """e with the spine phi identified by key replaced by its k-th branch (projections re-simplified)"""
+    t = e[0]
+    if t == 'phi':
+        return e[2][k] if _phi_key(e) == key and k < len(e[2]) else e
+    if t in ('ref', 'deref', 'discr'):
+        return simplify((t, _replace_spine(e[1], key, k)))
+    if t == 'field':
+        return simplify_field(('field', _replace_spine(e[1], key, k)) + tuple(e[2:]))
+    if t == 'downcast':
+        return simplify_downcast(('downcast', _replace_spine(e[1], key, k), e[2]))
+    if t == 'cast':
+        return ('cast', e[1], e[2], _replace_spine(e[3], key, k)) + tuple(e[4:])
+    if t == 'call' and is_transparent(e[1]) and e[2]:
+        return ('call', e[1], [_replace_spine(e[2][0], key, k)] + list(e[2][1:]), e[3])
+    return e
+
+
+def joint_alternatives(body, exprs, limit=64, _conds=()):
+    """gamma expansion of several expressions *together*: a merged value that several of them project (`best.0`, `best.2`
+    of one `let best = if .. { (a, b, c) } else { (d, e, f) }`) is resolved to the same definition in all of them.
+    Returns [([expr, ..], conds)]."""
+    ph = None
+    for e in exprs:
+        ph = _spine_phi(e)
+        if ph is not None:
+            break
+    if ph is None or limit <= 0:
+        return [(list(exprs), tuple(_conds))]
+    key = _phi_key(ph)
+    b2 = body.facts.bodies.get(ph[5], body) if len(ph) > 5 and ph[5] else body
+    sub = ph[6] if len(ph) > 6 else None
+    out = []
+    for k, (br, where) in enumerate(zip(ph[2], ph[4])):
+        if br[0] == 'loop':
+            continue
+        cs = []
+        for (_, d, v) in phi_branch_conditions(b2, where):
+            cs.append(norm_cond(subst_args(d, sub) if sub is not None else d, v))
+        out += joint_alternatives(body, [_replace_spine(e, key, k) for e in exprs], limit - 1, tuple(_conds) + tuple(cs))
+        if len(out) > 256:
+            break
+    return out
 
 
 def has_phi_spine(e):
@@ -1519,6 +1598,7 @@ class Facts:
         self.path = path
         self.spliced = {}            # helper path -> Body removed from `bodies` after splicing into its callers (scv/inline.py)
         self.splice_report = []
+        self.table_report = []
         self.meta = {}
         self.adts = {}
         self.consts = {}
@@ -1552,6 +1632,8 @@ class Facts:
         if splice:
             from .inline import splice_new_helpers
             self.splice_report = splice_new_helpers(self, Body)
+            from .inline import desugar_table_searches
+            self.table_report = desugar_table_searches(self, Body)
             for hp, cs in self.splice_report:
                 for b in self.bodies.values():
                     if b.kind == 'closure' and b.rec.get('parent') == hp and len(cs) == 1:
